@@ -2904,6 +2904,8 @@ func (d *Document) parseTable(decoder *xml.Decoder, startElement xml.StartElemen
 				if row != nil {
 					table.Rows = append(table.Rows, *row)
 				}
+			case "sdt", "sdtContent", "customXml":
+				// 包在行外面的内容控件 / 自定义XML标记：继续读里面的行（属性子元素 sdtPr 等照常跳过）
 			default:
 				if err := d.skipElement(decoder, t.Name.Local); err != nil {
 					return nil, err
@@ -3096,6 +3098,8 @@ func (d *Document) parseTableRow(decoder *xml.Decoder, startElement xml.StartEle
 				if cell != nil {
 					row.Cells = append(row.Cells, *cell)
 				}
+			case "sdt", "sdtContent", "customXml":
+				// 包在单元格外面的内容控件 / 自定义XML标记：继续读里面的单元格
 			default:
 				if err := d.skipElement(decoder, t.Name.Local); err != nil {
 					return nil, err
@@ -3149,6 +3153,8 @@ func (d *Document) parseTableCell(decoder *xml.Decoder, startElement xml.StartEl
 				if nested != nil {
 					cell.Tables = append(cell.Tables, *nested)
 				}
+			case "sdt", "sdtContent", "customXml":
+				// 单元格里包着段落/表格的内容控件 / 自定义XML标记：继续读里面的内容
 			default:
 				if err := d.skipElement(decoder, t.Name.Local); err != nil {
 					return nil, err
